@@ -15,6 +15,7 @@ import (
 	"testing/synctest"
 	"time"
 
+	"github.com/ethereum/go-ethereum/p2p/discover"
 	"github.com/ethereum/go-ethereum/p2p/enode"
 	"github.com/ethereum/go-ethereum/p2p/enr"
 	"github.com/holiman/uint256"
@@ -62,8 +63,10 @@ type c20Case struct {
 	Src    string   `json:"src,omitempty"`    // none | stranger | cov0 | cov4 (nearest / fifth-nearest covered table node)
 	Loose  bool     `json:"loose,omitempty"`  // radii max / 0 instead of distance+1 / distance-1
 	Script []uint32 `json:"script,omitempty"` // the 32-bit draws answered to the shuffle
-	Proto  string   `json:"proto,omitempty"`
-	Seq    []string `json:"seq,omitempty"` // radius: events "ping|pong:<payload type>:r1|r2"
+	// AllShuffles: the case stands for every outcome of the shuffle (reachability clause)
+	AllShuffles bool     `json:"all_shuffles,omitempty"`
+	Proto       string   `json:"proto,omitempty"`
+	Seq         []string `json:"seq,omitempty"` // radius: events "ping|pong:<payload type>:r1|r2"
 }
 
 var c20Protos = map[string]portalwire.ProtocolId{"history": portalwire.History, "state": portalwire.State, "beacon": portalwire.Beacon}
@@ -182,6 +185,8 @@ type c20Fix struct {
 	rs    *c20Source
 	st    *fixedRadiusStore
 	nodes []*enode.Node
+	d5    *discover.UDPv5
+	conn  *mconn
 }
 
 // newC20Fix must run inside a bubble: the table loop is started (gossip reads the
@@ -191,7 +196,17 @@ func newC20Fix(proto string, n, limit int) *c20Fix {
 	bn := newBareNode(bareOpts{keyIdx: 20, proto: c20Protos[proto], store: st})
 	bn.P.Utp = portalwire.NewZenEthUtp(context.Background(), &portalwire.PortalProtocolConfig{MaxUtpConnSize: limit}, nil, c20Conn{})
 	bn.P.VerifSetContentIdFunc(func(k []byte) []byte { return k })
-	f := &c20Fix{proto: proto, n: n, limit: limit, bn: bn, vt: bn.initTable(), rs: &c20Source{}, st: st}
+	// a real discv5 endpoint on a wire that loses every datagram: a record refresh (a ping or
+	// pong announcing a newer ENR sequence number triggers one) goes out and times out
+	w := newWire()
+	w.immediate, w.mute = true, true
+	conn := w.listen("127.0.0.1", 9020)
+	d5, err := discover.ListenV5(conn, bn.LN, quietD5Config(bn.Key, nil))
+	if err != nil {
+		panic(err)
+	}
+	bn.P.DiscV5 = d5
+	f := &c20Fix{proto: proto, n: n, limit: limit, bn: bn, vt: bn.initTable(), rs: &c20Source{}, st: st, d5: d5, conn: conn}
 	f.vt.SetSource(f.rs)
 	go f.vt.Loop()
 	synctest.Wait()
@@ -204,7 +219,11 @@ func newC20Fix(proto string, n, limit int) *c20Fix {
 	return f
 }
 
-func (f *c20Fix) close() { f.vt.Close() } // stops the loop and closes the node database
+func (f *c20Fix) close() { // stops the loop and closes the node database
+	f.d5.Close()
+	f.conn.Close()
+	f.vt.Close()
+}
 
 // cid: content id k. 0, 3: next to the first / last table node; 1: next to the local node (log
 // distances are the bucket distances: large tie groups); 2: unrelated; 4, 5: all zeros / ones.
@@ -272,12 +291,20 @@ func c20Payload(typ uint16, radius []byte) []byte {
 }
 
 func (f *c20Fix) ping(nd *enode.Node, typ uint16, radius []byte) ([]byte, error) {
-	return f.bn.P.VerifHandlePing(nd.ID(), &portalwire.Ping{EnrSeq: nd.Seq(), PayloadType: typ, Payload: c20Payload(typ, radius)})
+	return f.pingSeq(nd, nd.Seq(), typ, radius)
+}
+
+func (f *c20Fix) pingSeq(nd *enode.Node, seq uint64, typ uint16, radius []byte) ([]byte, error) {
+	return f.bn.P.VerifHandlePing(nd.ID(), &portalwire.Ping{EnrSeq: seq, PayloadType: typ, Payload: c20Payload(typ, radius)})
 }
 
 // pong: what processPong returns (an error for an unsupported type) is not something the statement speaks about.
 func (f *c20Fix) pong(nd *enode.Node, typ uint16, radius []byte) {
-	b, err := (&portalwire.Pong{EnrSeq: nd.Seq(), PayloadType: typ, Payload: c20Payload(typ, radius)}).MarshalSSZ()
+	f.pongSeq(nd, nd.Seq(), typ, radius)
+}
+
+func (f *c20Fix) pongSeq(nd *enode.Node, seq uint64, typ uint16, radius []byte) {
+	b, err := (&portalwire.Pong{EnrSeq: seq, PayloadType: typ, Payload: c20Payload(typ, radius)}).MarshalSSZ()
 	if err != nil {
 		panic(err)
 	}
@@ -652,13 +679,16 @@ func c20Select(r *mc.Report, e *Env, unit *int) {
 						scripts = scripts[:1]
 					}
 					reached := map[string]bool{}
+					allPlayed := true
 					for si, s := range scripts {
 						c.Script = s
 						if !e.Mark(func() string { b, _ := json.Marshal(c); return string(b) }) {
+							allPlayed = false
 							continue
 						}
 						ok, ps := c20RunSelect(r, f, c)
 						reached[fmt.Sprint(ps)] = true
+						allPlayed = allPlayed && ok
 						if c20SampleSelect[fmt.Sprintf("%d/%s/%d/%s/%v", n, c.States, c.Cid, c.Src, c.Loose)] && si == 0 && limit == 50 {
 							r.Sample(map[string]any{"case": c, "shuffles_played": len(scripts), "chosen_positions_nearest_first": ps})
 						}
@@ -668,8 +698,16 @@ func c20Select(r *mc.Report, e *Env, unit *int) {
 						}
 					}
 					if m := elig - 4; n <= 9 && m >= 4 { // all m! shuffles were played: each choice of 4 of the m others should be reachable
-						r.Count("extra_peer_subsets_possible", int64(m*(m-1)*(m-2)*(m-3)/24))
+						possible := m * (m - 1) * (m - 2) * (m - 3) / 24
+						r.Count("extra_peer_subsets_possible", int64(possible))
 						r.Count("extra_peer_subsets_reached", int64(len(reached)))
+						// "chosen at random among the other covered ones": with every outcome of the random
+						// draws played, every choice of 4 of the m others must occur for some outcome
+						if allPlayed && limit >= 8 && len(reached) < possible {
+							c.Script, c.AllShuffles = nil, true
+							r.Violation("others-chosen-at-random-among-all-covered", "GossipAndReturnPeers:unreachable-choice",
+								fmt.Sprintf("%d covered nodes besides the 4 nearest: over all %d outcomes of the shuffle only %d of the %d possible choices of 4 of them occur (%v)", m, len(scripts), len(reached), possible, keysOfBool(reached)), c)
+						}
 					}
 				})
 				if f != nil {
@@ -700,6 +738,8 @@ func c20Events() []string {
 			for _, rn := range []string{"r1", "r2"} {
 				evs = append(evs, fmt.Sprintf("%s:%d:%s", dir, typ, rn))
 			}
+			// the same message announcing a newer record sequence number (refresh attempted, unanswered)
+			evs = append(evs, fmt.Sprintf("%s:%d:r1:newer", dir, typ), fmt.Sprintf("%s:%d:r2:newer", dir, typ))
 		}
 		evs = append(evs, fmt.Sprintf("%s:%d:r1", dir, pingext.Error))
 	}
@@ -756,12 +796,20 @@ func c20RunRadius(r *mc.Report, f *c20Fix, c c20Case) bool {
 				f.bn.LN.Set(enr.WithEntry("c20", uint64(f.bn.LN.Seq())))
 				f.bn.LN.Node()
 			}
+			seq := x.Seq()
+			if len(p) > 3 && p[3] == "newer" {
+				seq += uint64(k) + 1 // the node says its record has changed: we try to fetch it, nobody answers
+			}
 			if dir == "ping" {
-				reply, err = f.ping(x, typ, radius)
+				reply, err = f.pingSeq(x, seq, typ, radius)
 			} else {
-				f.pong(x, typ, radius)
+				f.pongSeq(x, seq, typ, radius)
 			}
 			synctest.Wait()
+			if seq != x.Seq() {
+				time.Sleep(20 * time.Second) // virtual: past the timeout of the record refresh
+				synctest.Wait()
+			}
 			cached = f.bn.P.VerifCachedRadius(x.ID())
 			cnt, _ := f.bn.P.Gossip(nil, keys, contents) // the counting entry point; judged on the offers it queued
 			for _, o := range f.bn.P.VerifDrainOfferQueue() {
@@ -900,9 +948,38 @@ func replayC20(r *mc.Report, e *Env, raw json.RawMessage) {
 			return
 		}
 		f := newC20Fix("history", c.N, c.Limit)
-		c20RunSelect(r, f, c)
+		if c.AllShuffles {
+			elig := strings.Count(c.States, "c")
+			if c.Src == "cov0" || c.Src == "cov4" {
+				elig--
+			}
+			reached := map[string]bool{}
+			scripts := c20Scripts(c.N, minInt(elig, 32)-4)
+			for _, s := range scripts {
+				c.Script = s
+				_, ps := c20RunSelect(r, f, c)
+				reached[fmt.Sprint(ps)] = true
+			}
+			m := elig - 4
+			possible := m * (m - 1) * (m - 2) * (m - 3) / 24
+			fmt.Printf("outcome: %d shuffles played, %d of %d choices of 4 of the %d other covered nodes reached: %v\n", len(scripts), len(reached), possible, m, keysOfBool(reached))
+			if len(reached) < possible {
+				fmt.Println("REPLAY: reproduced C20/others-chosen-at-random-among-all-covered/GossipAndReturnPeers:unreachable-choice")
+			}
+		} else {
+			c20RunSelect(r, f, c)
+		}
 		f.close()
 	}); msg != "" {
 		r.EngineError(msg)
 	}
+}
+
+func keysOfBool(m map[string]bool) []string {
+	ks := make([]string, 0, len(m))
+	for k := range m {
+		ks = append(ks, k)
+	}
+	sort.Strings(ks)
+	return ks
 }
